@@ -211,7 +211,11 @@ def lean_prove(prop, thorough):
 
 
 # ----------------------------------------------------------------------------- harness
-def build_harness():
+# properties whose streams are also run on a build of the harness in which the crate's `std` feature is off
+NOSTD_PROPS = {"C20", "C17"}
+
+
+def build_harness(prop=None):
     res = {}
     with Lock("cargo"):
         lock = os.path.join(HARNESS, "Cargo.lock")
@@ -221,6 +225,10 @@ def build_harness():
         for prof, flag in (("release", ["--release"]), ("relchk", ["--profile", "relchk"])):
             rc, out, err, dt = run(["cargo", "build", "--offline"] + flag, cwd=HARNESS, timeout=3600)
             res[prof] = {"rc": rc, "s": round(dt, 1), "log": err.decode(errors="replace")[-3000:] if rc else ""}
+        if prop in NOSTD_PROPS:
+            rc, out, err, dt = run(["cargo", "build", "--offline", "--release", "--no-default-features", "--target-dir",
+                                    os.path.join(HARNESS, "target-nostd")], cwd=HARNESS, timeout=3600)
+            res["nostd"] = {"rc": rc, "s": round(dt, 1), "log": err.decode(errors="replace")[-3000:] if rc else ""}
     return res
 
 
@@ -346,7 +354,7 @@ def main():
         broken.append(("leanchecker", prop_module(prop), lean["leanchecker"]["out"]))
 
     # 3. implementation
-    hb = build_harness()
+    hb = build_harness(prop)
     for prof, r in hb.items():
         if r["rc"] != 0:
             broken.append(("harness-build", prof, r["log"][-3000:]))
@@ -368,6 +376,7 @@ def main():
             ctx = props.Ctx(prop=prop, tier=gen_tier, seed=seed + 1000003 * k, wdir=wdir, root=ROOT, repo=REPO,
                             driver=DRIVER if lean.get("driver_built") else None,
                             exe_release=exe("release"), exe_relchk=exe("relchk"),
+                            exe_nostd=(os.path.join(HARNESS, "target-nostd", "release", "rtcm-verif-harness") if prop in NOSTD_PROPS else None),
                             run_all=run_all, replay=args.replay, lean_ok=lean["built"], broken=bool(broken),
                             registered_tier=tier, round=k)
             ex = P.run(ctx)   # fills ctx.cov, ctx.violations, ctx.disagreements
@@ -468,7 +477,8 @@ def main():
         "model_disagreements": cov.get("model_disagreements", 0),
         "oracle_failures": cov.get("oracle_failures", 0),
         "input_distribution": cov.get("classes", {}),
-        "profiles": ["release (optimised)", "relchk (optimised + overflow-checks + debug-assertions)"],
+        "profiles": ["release (optimised)", "relchk (optimised + overflow-checks + debug-assertions)"] +
+                    (["nostd (release, crate feature std off)"] if prop in NOSTD_PROPS else []),
         "translator": tr_info[-300:] if isinstance(tr_info, str) else "",
         "lean_build_s": lean.get("build_s"),
         "exhaustive": bool(cov.get("exhaustive", False)),
